@@ -495,7 +495,11 @@ def run(tier: str, seed: int, replay: str | None = None) -> int:
     if kd.exists():
         for f in json.loads(kd.read_text()).get("findings", []):
             if f.get("property") == PROP and f.get("status") == "known":
-                chk.known["known"].setdefault(f["key"], f)
+                chk.known["known"][f["key"]] = f
+                chk.known["fixed"].pop(f["key"], None)
+            elif f.get("property") == PROP and str(f.get("status", "")).startswith("fixed"):
+                chk.known["fixed"][f["key"]] = f     # a fixed entry suppresses nothing: observed again = violation
+                chk.known["known"].pop(f["key"], None)
     chk.rule = ("seeded multi-language projects (3-14 files in nested directories, Python/TypeScript/JavaScript/Rust, hard-excluded and "
                 ".thailintignore'd paths) with EVERY registered rule running; files are built from snippets that trigger the cross-file rules "
                 "(shared blocks, constants, string sets, `# dry: ignore-...` comments), from the documented examples of every linter "
